@@ -1,12 +1,13 @@
 ---------------------------------- MODULE HookLifeTrace ----------------------------------
 (* Trace validation for HookLife.  A recorded real execution is
-       [tr, hooks, script, events, strace, obsd, based]
+       [tr, hooks, script, events, strace, obsd, based, dropped]
    events = the client-observable history of running `script` over a real connection (vocabulary of HookLife!hist),
    strace = the server-side event sequence recorded by the recording hooks and the instrumented service, in the
             vocabulary of HookLife!strace (token identity as the serial of the start that handed the token out;
             -1 = an object no start of that hook handed out),
    obsd   = the detailed client history of this run (results, batch values, error types and messages, one string
-            per entry), based = the same for the same script on the same transport with NO hook registered.
+            per entry), based = the same for the same script on the same transport with NO hook registered,
+   dropped = the script ended with the client vanishing ("d").
 
    The model is deterministic for a given (tr, hooks, script): TLC runs it, prunes behaviours whose hist stops being
    a prefix of the logged events, and when the model has made every call with hist = events it compares the real
@@ -26,20 +27,22 @@ TraceInit == /\ tid \in 1..Len(Traces)
 \* the next call is the one the real history made (run with MaxCalls >= the script length, FullPairs = TRUE and
 \* PairHooks = HookCfgs so that MayCall / MayFollow do not restrict a given script)
 TraceNext == /\ \/ (pc = "idle" /\ ip < Len(TScript) /\ StartCall(TScript[ip + 1]))
-                \/ Tick \/ Close \/ Cancel
+                \/ Tick \/ Close \/ Cancel \/ Drop
              /\ UNCHANGED tid
 TraceSpec == TraceInit /\ [][TraceNext]_tvars
-TDone == pc = "idle" /\ ip = Len(TScript)
+TDone == pc \in {"idle", "gone"} /\ ip = Len(TScript)
 Logged == Traces[tid].events
 IsPrefix == Len(hist) <= Len(Logged) /\ \A i \in 1..Len(hist) : hist[i] = Logged[i]
 
 \* clauses that need no model: the monitor on the real trace, and transparency for the client
-Free(t) == Monitor(t.strace, Len(t.hooks)) \cup Cl("Transparent", t.obsd = t.based)
+Free(t) == MonitorLax(t.strace, Len(t.hooks), t.dropped) \cup Cl("Transparent", t.obsd = t.based)
 Track == /\ IsPrefix
          /\ TLCSet(3 * tid + 2, IF TLCGet(3 * tid + 2) < Len(hist) THEN Len(hist) ELSE TLCGet(3 * tid + 2))
          /\ IF TDone /\ hist = Logged
-            THEN TLCSet(3 * tid, 1)
-                 /\ TLCSet(3 * tid + 1, Free(Traces[tid]) \cup Cl("TraceDiffers", Traces[tid].strace = strace))
+            THEN LET bad == Free(Traces[tid]) \cup Cl("TraceDiffers", Traces[tid].strace = strace) IN
+                 \* (the model admits two endings for a vanished client: the behaviour that matches the real trace counts)
+                 /\ TLCSet(3 * tid + 1, IF TLCGet(3 * tid) = 1 /\ "TraceDiffers" \in bad THEN TLCGet(3 * tid + 1) ELSE bad)
+                 /\ TLCSet(3 * tid, 1)
             ELSE TRUE
 ASSUME \A i \in 1..Len(Traces) : TLCSet(3 * i, 0) /\ TLCSet(3 * i + 1, {}) /\ TLCSet(3 * i + 2, 0)
 Verdicts == \A i \in 1..Len(Traces) :
